@@ -214,6 +214,19 @@ def fam_paths(case):
     for fmt in ("csc", "csr", "coo", "lil"):
         paths.append(("__init__[adjacency=sparse:%s]" % fmt,
                       build(adjacency=getattr(sps, fmt + "_matrix")(A))))
+    # sparse input that stores some zeros explicitly (e.g. after A[i,j]=0 or
+    # setdiag(0)): still the same adjacency matrix
+    zr = [(i, j) for i in range(N) for j in range(N) if not A[i, j]][:3]
+    on = [(i, j) for i in range(N) for j in range(N) if A[i, j]]
+    if zr:
+        rc = on + zr
+        data = [1] * len(on) + [0] * len(zr)
+        for fmt in ("csr", "csc"):
+            M = getattr(sps, fmt + "_matrix")(
+                (data, ([r for r, _ in rc], [c for _, c in rc])),
+                shape=(N, N))
+            paths.append(("__init__[adjacency=sparse:%s,explicit-zeros]"
+                          % fmt, build(adjacency=M)))
     # Network(edge_list=...) is set_edge_list: same path name, same key
     paths.append(("set_edge_list[each-link-once]",
                   build(edge_list=_edges_once(sp), n_nodes=N)))
@@ -328,7 +341,7 @@ def _network_gml_failures(sp):
 
 
 def _roundtrip(J, cls, Loader, saver, names, sp, explain=None, fold=(),
-               **jkw):
+               label="save+Load", **jkw):
     """save+Load in every format; one key when all formats fail alike.
     `fold`: groups whose gml failure is already reported for Network."""
     outs = []
@@ -367,7 +380,7 @@ def _roundtrip(J, cls, Loader, saver, names, sp, explain=None, fold=(),
                                               "attrs")) if g not in fold)
             J.count(J.stats, "gml round-trip failures of spatial classes "
                     "attributed to Network.save+Load[gml]", len(fold))
-        J.judge(cls, "save+Load[%s]" % tag, res, sp=sp, **kw2)
+        J.judge(cls, "%s[%s]" % (label, tag), res, sp=sp, **kw2)
         if "," in tag:
             J.viol = [v for v in J.viol if v["key"] in before or
                       v["key"].replace("[%s]" % tag, "[%s]" % fmt)
@@ -402,6 +415,30 @@ def fam_files(case):
     _fold_same_as(J, _reference_failures(sp, base),
                   "round-trip failures the saved object shows already "
                   "(reported by the paths family)")
+    # history: a saved object whose node weights are changed afterwards and
+    # that is saved again must store the new weights
+    wk2 = (wk + 1) % 3
+    sp2 = NR.spec(n, directed, mask, wk2, na)
+    before = {v["key"] for v in J.viol}
+    try:
+        base.node_weights = sp2["w_in"]
+        ok = True
+    except Exception:   # noqa
+        ok = False
+    if ok:
+        _roundtrip(J, "Network",
+                   lambda fn, fmt: Network.Load(fn, fmt, silence_level=3),
+                   lambda fn, fmt: base.save(fn, fmt),
+                   lambda ext: _fname("net2", ext), sp2,
+                   explain=_explained_by_fromigraph(J, sp2),
+                   label="save,node_weights=,save+Load")
+        # what the first round trip reports already is not repeated
+        # (gml loses node weights on every save: reported by the first
+        # round trip on the cases with custom weights)
+        J.viol = [v for v in J.viol if v["key"] in before or (
+            v["key"].replace("save,node_weights=,save+Load",
+                             "save+Load") not in before
+            and "save,node_weights=,save+Load[gml" not in v["key"])]
     return J.result()
 
 
